@@ -23,7 +23,7 @@ func init() {
 			"expiry from Walk().ExpireAt() is checked against [t0+T-|T|J/2-eps, t1+T+|T|J/2+eps] with wall-clock brackets t0/t1 around the Write; reads before/after expiry checked; " +
 			"per batch a distribution block (2000 writes each for J=1.0 and J=default) must populate both halves and both outer deciles of the jitter interval; " +
 			"distinct_nontrivial = distinct (backend, config class, ctx class, jitter class, magnitude decade) cells with a finite effective TTL",
-		Required: []string{"restored.checked", "trait_ttl.checked", "writes", "writes.store", "writes.overwrite", "bounds.checked", "unlimited.checked", "read.hit.checked", "read.expired.checked", "dist.blocks"},
+		Required: []string{"restored.checked", "trait_ttl.checked", "writes", "writes.store", "writes.overwrite", "via_failover.writes", "via_failover.after_failed_build", "bounds.checked", "unlimited.checked", "read.hit.checked", "read.expired.checked", "dist.blocks"},
 		Assumptions: []string{
 			"wall clock (time.Now().UnixNano) is not stepped backwards/forwards during a run",
 			"eps = 2ns + |T|*2^-52 covers float64 rounding of the jitter product",
@@ -55,6 +55,10 @@ func runC10(b *Batch) {
 	n := b.Pick(200000, 32000000) / b.NBatches
 	for i := 0; i < n; i++ {
 		if b.Skip(i) {
+			continue
+		}
+		if i%64 == 63 {
+			c10ViaFailover(b, i)
 			continue
 		}
 		c10Case(b, i)
@@ -339,4 +343,95 @@ func c10Dist(b *Batch, idx int, kind string, jit float64) {
 	if cnt != n || lower < n/4 || upper < n/4 || lowDecile == 0 || highDecile == 0 {
 		b.R.Violate(b, idx, "C10:"+kind+":jitter-distribution", fmt.Sprintf("jitter not two-sided/full-width: %v", desc), desc)
 	}
+}
+
+// c10ViaFailover: the entry is written by the Failover frontend on behalf of a caller whose context carries the TTL, and that
+// context has a history: it was already used for a Get whose build failed (and for other keys). The effective TTL of the
+// later write is still the one the caller put into the context.
+func c10ViaFailover(b *Batch, idx int) {
+	rng := rand.New(rand.NewSource(b.CaseSeed(idx)))
+	p := foPairings[rng.Intn(3)]
+	T := time.Hour + randDuration(rng)%(10*time.Hour)
+	jit := []float64{-1, 0, 1.0}[rng.Intn(3)]
+	be := newBackend(p[1], cache.Config{ExpirationJitter: jit})
+	fut := []time.Duration{0, time.Second, -1}[rng.Intn(3)]
+	var get func(ctx context.Context, key string, fail bool) error
+	if p[0] == "FailoverOf" {
+		f := cache.NewFailoverOf[string](cache.FailoverConfigOf[string]{Backend: be.(ofAdapter).m, FailedUpdateTTL: fut}.Use)
+		get = func(ctx context.Context, key string, fail bool) error {
+			_, err := f.Get(ctx, []byte(key), func(context.Context) (string, error) {
+				if fail {
+					return "", errors.New("source down")
+				}
+				return "v-" + key, nil
+			})
+			return err
+		}
+	} else {
+		var rw cache.ReadWriter
+		switch a := be.(type) {
+		case smAdapter:
+			rw = a.m
+		case syAdapter:
+			rw = a.m
+		}
+		f := cache.NewFailover(cache.FailoverConfig{Backend: rw, FailedUpdateTTL: fut}.Use)
+		get = func(ctx context.Context, key string, fail bool) error {
+			_, err := f.Get(ctx, []byte(key), func(context.Context) (interface{}, error) {
+				if fail {
+					return nil, errors.New("source down")
+				}
+				return "v-" + key, nil
+			})
+			return err
+		}
+	}
+	ctx := cache.WithTTL(bg, T, false)
+	nFail := rng.Intn(3)
+	for i := 0; i < nFail; i++ {
+		_ = get(ctx, fmt.Sprintf("failing-%d", i), true)
+	}
+	t0 := time.Now().UnixNano()
+	err := get(ctx, "ok", false)
+	t1 := time.Now().UnixNano()
+	b.R.Eval()
+	b.R.Count("via_failover.writes", 1)
+	if nFail > 0 {
+		b.R.Count("via_failover.after_failed_build", 1)
+	}
+	desc := map[string]interface{}{"api": p[0], "backend": p[1], "T": T.String(), "jitter": jit, "failed_builds_before": nFail, "fut": fut.String()}
+	fail := func(what, msg string) {
+		b.R.Violate(b, idx, "C10:"+p[0]+":via-failover:"+what, fmt.Sprintf("%s: %s %v", what, msg, desc), desc)
+	}
+	if err != nil {
+		fail("get-error", err.Error())
+		return
+	}
+	if got := cache.TTL(ctx); got != T {
+		fail("ctx-ttl-altered", fmt.Sprintf("TTL in the caller's context changed from %v to %v", T, got))
+	}
+	var E int64
+	found := false
+	be.Walk(func(k []byte, _ interface{}, exp time.Time) error {
+		if string(k) == "ok" {
+			E, found = exp.UnixNano(), true
+		}
+		return nil
+	})
+	if !found {
+		fail("walk-missing", "built entry not reported by Walk")
+		return
+	}
+	J := jit
+	if J == 0 {
+		J = 0.1
+	}
+	hw := 0.0
+	if J > 0 {
+		hw = float64(T)*J/2 + 2 + float64(T)*math.Pow(2, -52)
+	}
+	if float64(E-t0-int64(T)) < -hw || float64(E-t1-int64(T)) > hw {
+		fail("bounds", fmt.Sprintf("entry built with context TTL %v expires at t+%v, allowed deviation %v", T, time.Duration(E-t0), time.Duration(hw)))
+	}
+	b.R.Nontrivial(fmt.Sprintf("via-failover/%s/%s/jit=%v/fails=%d/fut=%v", p[0], p[1], jit, nFail, fut))
 }
